@@ -275,7 +275,7 @@ def gen_api_unit(rng):
     """create (mostly accepted, some deferred, some split/split, some VR) followed by a random call sequence"""
     cfg = {}
     c = rng.below(10)
-    ir, orr = (float(rng.choice(cr.AUDIO)), float(rng.choice(cr.AUDIO))) if c < 7 else rng.choice([(0.0, 0.0), (1.0, 0.0), (0.0, 1.0), (3.0, 1.0)])
+    ir, orr = (float(rng.choice(cr.AUDIO)), float(rng.choice(cr.AUDIO))) if c < 6 else rng.choice([(0.0, 0.0), (0.0, 0.0), (1.0, 0.0), (0.0, 1.0), (3.0, 1.0), (1.0, 3.0)])
     cfg["ir"], cfg["or"] = cl.d2b(ir), cl.d2b(orr)
     cfg["ch"] = rng.choice([0, 1, 1, 1, 2, 3, 8])
     cfg["recipe"] = rng.choice([0, 1, 4, 4, 6, 8, 10])
@@ -283,8 +283,24 @@ def gen_api_unit(rng):
     split = rng.chance(.3)
     cfg["itype"] = rng.below(4) | (cl.SPLIT if split or rng.chance(.2) else 0)
     cfg["otype"] = rng.below(4) | (cl.SPLIT if split or rng.chance(.2) else 0)
-    if rng.chance(.15):
-        cfg["prec"] = cl.d2b(rng.choice([14.0, 34.0, 16.0]))     # engine validation fails later (deferred) or at once
+    if rng.chance(.3):
+        # a quality spec _soxr_init rejects: the error arises at once, or -- with the configuration supplied in two steps
+        # (no channels / no ratio yet) -- later, inside soxr_set_io_ratio / soxr_set_num_channels (fatal_error)
+        bad = rng.below(7)
+        if bad == 0:
+            cfg["prec"] = cl.d2b(rng.choice([14.0, 34.0, 16.0]))
+        elif bad == 1:
+            cfg["phase"] = cl.d2b(rng.choice([101.0, -1.0]))
+        elif bad == 2:
+            cfg["pb"], cfg["sb"] = cl.d2b(.95), cl.d2b(.9505)           # transition bandwidth too small
+        elif bad == 3:
+            cfg["pb"], cfg["sb"] = cl.d2b(.4), cl.d2b(.8)               # passband below 50 %
+        elif bad == 4:
+            cfg["pb"], cfg["sb"] = cl.d2b(.9), cl.d2b(1.3)              # imaging (when up-sampling)
+        elif bad == 5:
+            cfg["pb"], cfg["sb"] = cl.d2b(.99), cl.d2b(1.6)             # stopband beyond 150 %
+        else:
+            cfg["prec"] = cl.d2b(14.0); cfg["phase"] = cl.d2b(200.0)
     if rng.chance(.3):
         cfg["E.SOXR_USE_SIMD"] = cl.hexs(rng.choice(["0", "1"]))
     ops = [cl.create_line(cfg)]
@@ -306,10 +322,10 @@ def gen_api_unit(rng):
         elif k < 14:
             i_null = rng.chance(.3)
             o_null = (not osplit) and rng.chance(.25)
-            ops.append("process %d %d %d %d" % (i_null, o_null, rng.choice([0, 5, 100, 700]), rng.choice([0, 5, 100, 2000])))
+            ops.append("process %d %d %d %d" % (i_null, o_null, rng.choice([0, 5, 100, 700]), rng.choice([5, 100] if o_null else [0, 5, 100, 2000])))
         elif k < 17:
             o_null = (not osplit) and rng.chance(.3)
-            ops.append("output %d %d" % (o_null, rng.choice([0, 5, 100, 2000])))
+            ops.append("output %d %d" % (o_null, rng.choice([5, 100] if o_null else [0, 5, 100, 2000])))
         elif k == 17:
             ops.append("delay")
         elif k == 18:
@@ -323,6 +339,7 @@ def gen_api_unit(rng):
 
 
 def stage_api(ctx, exe, n, known):
+    exe = common.build_harness("config_probe", ["config/probe.c"], "san")     # call sequences run under ASan/UBSan, asserts on
     units = [gen_api_unit(ctx.rng) for _ in range(n)]
     cl.run_real(exe, units, batch=20)
     cl.run_model(units)
@@ -344,6 +361,8 @@ def stage_api(ctx, exe, n, known):
         if bad:
             if "F25" in known and bad[0] == "split":
                 ctx.known("F25", known["F25"]["what"]); ctx.hist("known_hits", "F25")
+            elif "F28" in known and bad[0] == "engine-null":
+                ctx.known("F28", known["F28"]["what"]); ctx.hist("known_hits", "F28")
             else:
                 violation(ctx, "api-oracle", "C09 sticky error fails on the real code: %s (%s)" % (bad[1], " | ".join(u.model_in)[:800]),
                               {"stage": "api", "ops": u.ops, "real": u.real, "oracle": bad})
@@ -354,30 +373,67 @@ def stage_api(ctx, exe, n, known):
     ctx.cov["distinct_nontrivial"] = ctx.cov.get("distinct_nontrivial", 0) + len(seen)
 
 
+# messages of _soxr_init's validation: when soxr_set_io_ratio / soxr_set_num_channels / soxr_clear return one of them the
+# deferred initialisation has failed (fatal_error) and the error must stay recorded
+ENGINE_MSGS = ("imaging greater than rolloff", "transition bandwidth not in", "transition band not within", "precision not in",
+               "resampling factor not positive", "resampling factor too large", "phase response not in")
+
+
 def sticky_oracle(u):
+    """The sticky clause on the REAL answers of one API sequence.  An error counts as recorded from the moment (a) soxr_error()
+    reports it, (b) soxr_process returns it, (c) a deferred initialisation fails with one of _soxr_init's messages, (d) the
+    input function reports failure; from then until soxr_clear / soxr_set_error: soxr_error() and soxr_set_io_ratio answer
+    it, soxr_process returns it with odone = 0, soxr_output and soxr_delay return 0, and no call is left that would
+    dereference NULL.  Returns None or (kind, text)."""
     cfg = u.meta["cfg"]
     both = bool(cfg["itype"] & cfg["otype"] & cl.SPLIT)
     err = None
+    found_engine_null = False
     for op, ans in zip(u.model_in, u.real):
         t = op.split()
-        if t[0] in ("clear", "seterr", "create"):
+        if t[0] == "create":
             err = None
             continue
-        if t[0] == "error":
-            err = ans[2:] if ans.startswith("S ") and ans != "S -" else None
+        if t[0] == "seterr":
+            err = None
             continue
-        if err is None:
+        if t[0] == "clear":
+            err = None
+            if ans.startswith("S ") and ans[2:].startswith(ENGINE_MSGS):
+                err = ans[2:]
             continue
-        if t[0] == "process" and ans.startswith("P "):
-            k = cl.kv(ans)
-            msg = ans.split("err=", 1)[1]
-            if msg != err:
-                return ("msg", "soxr_process returned `%s` while soxr_error() was `%s`" % (msg, err))
-            if k["z"] != "1":
-                return ("split" if both else "out", "soxr_process delivered output while the error `%s` was recorded" % err)
-        if t[0] == "output" and ans.startswith("K ") and cl.kv(ans)["z"] != "1":
-            return ("out", "soxr_output delivered output while the error `%s` was recorded" % err)
-    return None
+        if err is not None:
+            if t[0] == "engine":
+                if ans.startswith("X nullcall"):
+                    found_engine_null = True
+                continue
+            if ans.startswith("X misuse") or ans.startswith("X nullcall"):
+                if not (both and t[0] == "process"):
+                    return ("lost", "after the error `%s` `%s` would dereference NULL: the recorded error is gone" % (err, t[0]))
+            if t[0] == "error" and ans != "S " + err:
+                return ("lost", "soxr_error() answers `%s` after the error `%s` had been reported" % (ans[2:], err))
+            if t[0] == "setratio" and ans.startswith("S ") and ans != "S " + err:
+                return ("msg", "soxr_set_io_ratio answers `%s` while the error `%s` is recorded" % (ans[2:], err))
+            if t[0] == "process" and ans.startswith("P "):
+                k = cl.kv(ans)
+                msg = ans.split("err=", 1)[1]
+                if msg != err and not (both and msg == "-"):
+                    return ("msg", "soxr_process returned `%s` while the error `%s` was recorded" % (msg, err))
+                if k["z"] != "1":
+                    return ("split" if both else "out", "soxr_process delivered output while the error `%s` was recorded" % err)
+            if t[0] in ("output", "delay") and ans.startswith("K ") and cl.kv(ans)["z"] != "1":
+                return ("out", "soxr_%s returned non-zero while the error `%s` was recorded" % (t[0], err))
+            continue
+        # no error recorded so far: does this call record one?
+        if t[0] == "error" and ans.startswith("S ") and ans != "S -":
+            err = ans[2:]
+        elif t[0] in ("setratio", "setch") and ans.startswith("S ") and ans[2:].startswith(ENGINE_MSGS):
+            err = ans[2:]
+        elif t[0] == "process" and ans.startswith("P ") and not ans.endswith("err=-"):
+            err = ans.split("err=", 1)[1]
+        elif t[0] in ("process", "output") and t[-1] == "failed":
+            err = "input function reported failure"
+    return ("engine-null", "soxr_engine() after a failed deferred initialisation calls through the zeroed control block") if found_engine_null else None
 
 
 def working_ops(rng, tcfg, plan, up):
@@ -513,6 +569,7 @@ PINNED = [
     ("F22", ["create ir=%d or=%d ch=1 recipe=4 rflags=32" % (cl.d2b(1e308), cl.d2b(1e-308))], "dead"),
     ("F21", ["create ir=%d or=%d ch=1 viaio=1 itype=9 otype=0" % (cl.d2b(1.0), cl.d2b(2.0))], "accepted"),
     ("F27", ["create ir=%d or=%d ch=1" % (cl.d2b(-44100.0), cl.d2b(-48000.0))], "accepted"),
+    ("F28", ["create ir=%d or=%d ch=1 prec=%d" % (cl.d2b(0.0), cl.d2b(0.0), cl.d2b(14.0)), "setratio %d" % cl.d2b(2.0), "error", "engine"], "engine-null"),
     ("F25", ["create ir=%d or=%d ch=1 itype=4 otype=4" % (cl.d2b(1.0), cl.d2b(1.0)), "process 0 0 700 100", "output 1 5", "error", "process 0 0 700 100", "error"], "sticky-split"),
 ]
 
@@ -520,7 +577,7 @@ PINNED = [
 def stage_pinned(ctx, exe, known):
     """Every listed finding of the pinned tree is replayed on purpose; a finding that no longer reproduces is reported
     in the evidence (the known_findings entry should then become `fixed`)."""
-    units = [cl.Unit(ops, {"cfg": {"itype": 4, "otype": 4} if fid == "F25" else {}, "fid": fid, "expect": exp}) for fid, ops, exp in PINNED]
+    units = [cl.Unit(ops, {"cfg": {"itype": 4, "otype": 4} if fid == "F25" else {"itype": 0, "otype": 0}, "fid": fid, "expect": exp}) for fid, ops, exp in PINNED]
     cl.run_real(exe, units, timeout=8, batch=1)
     cl.run_model(units)
     for u in units:
@@ -532,7 +589,7 @@ def stage_pinned(ctx, exe, known):
             hit = bool(u.real) and u.real[0].startswith("C ok")
         else:
             b = sticky_oracle(u)
-            hit = bool(b) and b[0] == "split"
+            hit = bool(b) and b[0] == ("split" if exp == "sticky-split" else exp)
         ctx.cov.setdefault("pinned_findings", {})[fid] = "reproduced" if hit else "not reproduced"
         if hit and fid in known:
             ctx.known(fid, known[fid]["what"])
@@ -609,7 +666,7 @@ def run(ctx):
                "`accepted => working` is covered by re-creating sampled accepted configurations under sanitizers and deciding PipeWF on each exported plan, not by proof",
                "binary64 arithmetic of the validation code is modelled as correctly rounded IEEE-754 (SSE2, no -ffast-math, no x87 excess precision)",
                "malloc succeeds (C20); runtime-spec fields handed over directly are inside their documented ranges (only the SOXR_* overrides are range-checked by the code)",
-               "API misuse that dereferences NULL (processing before channels and ratio are set, NULL array of split buffers, input after end-of-input) is outside the property; "
+               "API misuse that dereferences NULL (processing before channels and ratio are set, NULL array of split buffers, input after end-of-input, a NULL buffer together with length 0) is outside the property; "
                "the model marks it `misuse` and the harness does not execute it",
                "streams of configurations whose plan reserves more than 2^22 frames per stage invocation (up-sampling by more than ~500 with 8192-frame blocks) are not run (memory); "
                "their plans are still exported and checked")
